@@ -552,20 +552,36 @@ func (ex *Exec) heapRead(st *State, key string, sort Sort) Term {
 	if t, ok := st.heap[key]; ok {
 		return t
 	}
-	_, epoch := st.heap["__epoch"]
-	_, mark := st.heap["__hv."+key]
+	ep, epoch := st.heap["__epoch"]
+	mk, mark := st.heap["__hv."+key]
 	if !mark {
+		var hks []string
 		for hk := range st.heap {
 			if strings.HasPrefix(hk, "__hvp.") && strings.HasPrefix(key, hk[6:]) {
-				mark = true
-				break
+				hks = append(hks, hk)
 			}
+		}
+		if len(hks) > 0 {
+			sort2 := hks
+			sortStrings(sort2)
+			mk, mark = st.heap[sort2[0]], true
 		}
 	}
 	if epoch || mark {
-		t := ex.sc.Fresh("hv."+key, sort)
+		// the array is named after the havoc that made it unknown, so that two
+		// states sharing that havoc (a loop head and a later point, for old())
+		// read the same array
+		tag := ep
+		if mark {
+			tag = mk
+		}
+		name := smtIdent("hv." + key + "@" + tag.S)
+		_, seen := ex.sc.declared[name]
+		t := ex.sc.Declare(name, sort)
 		st.heap[key] = t
-		ex.fieldInvAxiom(key, t, st.alloc)
+		if !seen {
+			ex.fieldInvAxiom(key, t, st.alloc)
+		}
 		return t
 	}
 	return ex.heapInit(key, sort)
@@ -1230,3 +1246,5 @@ func rxHasAssertion(r *syntax.Regexp) bool {
 	}
 	return false
 }
+
+func sortStrings(xs []string) { sort.Strings(xs) }
